@@ -1,6 +1,7 @@
 package generator
 
 import (
+	"bytes"
 	"encoding/json"
 	"fmt"
 	"io"
@@ -265,7 +266,59 @@ func GoLangOpts() *LanguageOpts {
 		if err != nil {
 			return "", err
 		}
-		return strings.ReplaceAll(strings.ReplaceAll(strings.ReplaceAll(strings.ReplaceAll(string(b), "}", ",}"), "[", "{"), "]", ",}"), "{,}", "{}"), nil
+		// walk the JSON value rather than rewriting its text: brackets and braces inside string values are data
+		var v interface{}
+		dec := json.NewDecoder(bytes.NewReader(b))
+		dec.UseNumber()
+		if err := dec.Decode(&v); err != nil {
+			return "", err
+		}
+		var w strings.Builder
+		var render func(interface{}) error
+		render = func(x interface{}) error {
+			switch t := x.(type) {
+			case []interface{}:
+				w.WriteByte('{')
+				for _, e := range t {
+					if err := render(e); err != nil {
+						return err
+					}
+					w.WriteByte(',')
+				}
+				w.WriteByte('}')
+			case map[string]interface{}:
+				keys := make([]string, 0, len(t))
+				for k := range t {
+					keys = append(keys, k)
+				}
+				sort.Strings(keys)
+				w.WriteByte('{')
+				for _, k := range keys {
+					kb, err := json.Marshal(k)
+					if err != nil {
+						return err
+					}
+					w.Write(kb)
+					w.WriteByte(':')
+					if err := render(t[k]); err != nil {
+						return err
+					}
+					w.WriteByte(',')
+				}
+				w.WriteByte('}')
+			default:
+				sb, err := json.Marshal(t)
+				if err != nil {
+					return err
+				}
+				w.Write(sb)
+			}
+			return nil
+		}
+		if err := render(v); err != nil {
+			return "", err
+		}
+		return w.String(), nil
 	}
 
 	opts.BaseImportFunc = func(tgt string) string {
